@@ -49,7 +49,7 @@ def check(ctx):
     MAP = SUB + ".param_mapping"
     S_ = MAP + "@TypeParamMapping::Specified.0"
     REPL = "vec+(for(%s){if(let v1::Some($)=slice::get(P2,elem(%s).1)){(elem(%s).0,slice::get(P2,elem(%s).1)@v1::Some.0)}else{'()'}})" % (S_, S_, S_, S_)
-    PATH = "mut[%s.path;substitutes::replace_path_params_recursively(&self,%s,P3) if %s~TypeParamMapping::Specified($)&&Not(slice::is_empty(%s))]" % (SUB, REPL, MAP, REPL)
+    PATH = "if(Not(slice::is_empty(%s))){mut[%s.path;substitutes::replace_path_params_recursively(&self,%s,P3)]}else{%s.path}" % (REPL, SUB, REPL, SUB)
     expect_fn(ctx, "C07.3", "same-key/lookup", "TypeSubstitutes::for_path_with_params",
               "Some(if(let TypeParamMapping::Specified($)=%s){type_path::TypePathType::Path{params:Vec::new(),path:%s}}else{type_path::TypePathType::Path{params:P2,path:%s.path}})" % (MAP, PATH, SUB),
               "look-up in the same map with the same key; the rule's own path and mapping are used. PassThrough: substitute path + the resolved arguments unchanged, in order. "
